@@ -98,7 +98,9 @@ class _VariableMap:
         return self._data[k]
 
     def add(self, var: Variable) -> None:
-        self[var].append(var)
+        variables = self[var]
+        if not any(v == var and v.span == var.span for v in variables):
+            variables.append(var)
 
     def as_dict(self) -> dict[str, list[Variable]]:
         return self._data
@@ -149,6 +151,13 @@ def analyze(template: BoundTemplate, *, include_partials: bool) -> TemplateAnaly
     # only record global variables so as not to double count locals, filters
     # and tags.
     seen: defaultdict[str, set[Optional[int]]] = defaultdict(set)
+
+    # The names that were in scope each time a partial template was visited with a
+    # given key. A partial is visited again, for globals only, if it is reached
+    # from a scope that does not include all the names of an earlier visit.
+    visited: defaultdict[tuple[str, Optional[int]], list[frozenset[str]]] = (
+        defaultdict(list)
+    )
 
     def _visit(
         node: Node,
@@ -205,18 +214,28 @@ def analyze(template: BoundTemplate, *, include_partials: bool) -> TemplateAnaly
             # If we've seen this partial before but with different arguments,
             # we might want to visit it again but only capture globals.
             _just_globals = partial_name in seen
-            if partial.key in seen[partial_name]:
+            in_scope = set(partial.in_scope)
+            visible = frozenset(
+                in_scope
+                if partial.scope == PartialScope.ISOLATED
+                else in_scope.union(*scope.stack)
+            )
+            if any(
+                names <= visible for names in visited[(partial_name, partial.key)]
+            ):
                 # We've visited this partial template before with the same
-                # arguments.
+                # arguments and with no more names in scope than there are now,
+                # so there can be no new global variables.
                 return
 
+            visited[(partial_name, partial.key)].append(visible)
             seen[partial_name].add(partial.key)
             partial_name = partial_name or template_name
 
             partial_scope = (
-                _StaticScope(set(partial.in_scope))
+                _StaticScope(in_scope)
                 if partial.scope == PartialScope.ISOLATED
-                else root_scope.push(set(partial.in_scope))
+                else root_scope.push(in_scope)
             )
 
             for child in node.children(
@@ -270,6 +289,13 @@ async def analyze_async(
 
     # Names of partial templates that have already been analyzed.
     seen: defaultdict[str, set[Optional[int]]] = defaultdict(set)
+
+    # The names that were in scope each time a partial template was visited with a
+    # given key. A partial is visited again, for globals only, if it is reached
+    # from a scope that does not include all the names of an earlier visit.
+    visited: defaultdict[tuple[str, Optional[int]], list[frozenset[str]]] = (
+        defaultdict(list)
+    )
 
     async def _visit(
         node: Node,
@@ -326,18 +352,28 @@ async def analyze_async(
             # If we've seen this partial before but with different arguments,
             # we might want to visit it again but only capture globals.
             _just_globals = partial_name in seen
-            if partial.key in seen[partial_name]:
+            in_scope = set(partial.in_scope)
+            visible = frozenset(
+                in_scope
+                if partial.scope == PartialScope.ISOLATED
+                else in_scope.union(*scope.stack)
+            )
+            if any(
+                names <= visible for names in visited[(partial_name, partial.key)]
+            ):
                 # We've visited this partial template before with the same
-                # arguments.
+                # arguments and with no more names in scope than there are now,
+                # so there can be no new global variables.
                 return
 
+            visited[(partial_name, partial.key)].append(visible)
             seen[partial_name].add(partial.key)
             partial_name = partial_name or template_name
 
             partial_scope = (
-                _StaticScope(set(partial.in_scope))
+                _StaticScope(in_scope)
                 if partial.scope == PartialScope.ISOLATED
-                else root_scope.push(set(partial.in_scope))
+                else root_scope.push(in_scope)
             )
 
             for child in await node.children_async(
